@@ -1408,6 +1408,54 @@ func fdsDirect(seed uint64, tier string, args []string, w *bufio.Writer) {
 		}
 	}
 
+	// 7. descriptor number 0 (a process started with its standard input closed hands it to the first socket it creates): an object
+	// that holds it releases it like any other number
+	if saved, err := syscall.Dup(0); err == nil {
+		syscall.CloseOnExec(saved)
+		_ = syscall.Close(0)
+		for _, kind := range []string{"socket", "udppeer", "packet", "listener", "timer", "conn", "file"} {
+			kind := kind
+			d.trial("descriptor-zero."+kind, "create "+kind+" with descriptor 0 free, Close it", func() {
+				before := fdsCensus()
+				o, err := fdsCreate(ioc, kind)
+				if err != nil {
+					return
+				}
+				got := fdsNew(before, fdsCensus())
+				holdsZero := false
+				for _, fd := range got {
+					if fd == 0 {
+						holdsZero = true
+					}
+				}
+				if len(o.fds) > 0 {
+					holdsZero = false
+					for _, fd := range o.fds {
+						if fd == 0 {
+							holdsZero = true
+						}
+					}
+				}
+				if o.close != nil {
+					_ = o.close()
+				}
+				if o.peer != nil {
+					o.peer.Close()
+				}
+				if o.peerFd > 0 {
+					_ = syscall.Close(o.peerFd)
+				}
+				if holdsZero && fdsAlive(0) {
+					d.fail("descriptor-zero", "%s: the object held descriptor 0; after Close (which reported success) descriptor 0 is still open: %s", kind, fdsCensus()[0])
+					_ = syscall.Close(0)
+				}
+			})
+		}
+		_ = syscall.Close(0)
+		_ = syscall.Dup2(saved, 0)
+		_ = syscall.Close(saved)
+	}
+
 	st := map[string]any{"fds_trials": d.counts, "fds_failures": d.fails}
 	js, _ := json.Marshal(st)
 	fmt.Fprintf(w, "DIRECT-STAT %s\n", js)
